@@ -256,18 +256,19 @@ def isD : B → Bool
   | .or l r => isD l && isD r
   | _ => false
 
-def lenD (ck : Bool) : B → Nat
-  | .lit true => 1
+def lenD (ck vd : Bool) : B → Nat
+  | .lit true => if vd then 2 else 1
   | .lit false => 0
   | .cmp _ l r =>
     lenE l ck (!isSafe r) + (lenE r ck false + (match r with | .var _ => 1 | _ => 0))
-      + (match l with | .var _ => 1 | .lit _ => 0 | _ => if isSafe r then 0 else 1) + 1
-  | .or l r => lenD ck l + lenD ck r
+      + (match l with | .var _ => 1 | .lit _ => 0 | _ => if isSafe r then 0 else 1) + (if vd then 2 else 1)
+  | .or l r => lenD ck vd l + lenD ck vd r
   | _ => 0
 
-/-- `truth_is_defeat(c)` in a context whose effective defeat is `halt` -/
-def cD (cx : Cx) (Γ : Gam) : (pc o : Nat) → B → List Instr
-  | _, _, .lit true => [.halt]
+/-- `truth_is_defeat(c)`: conditional halts; when the effective defeat is the word `defeat` (`vd`: inside the
+body of a `try/stop`) each of them is preceded by `j [defeat]`, which is taken exactly when the halt would fire -/
+def cD (cx : Cx) (vd : Bool) (Γ : Gam) : (pc o : Nat) → B → List Instr
+  | _, _, .lit true => if vd then [.j (.st cx.dA), .halt] else [.halt]
   | _, _, .lit false => []
   | pc, o, .cmp op l r =>
     let (c1, vl, p1) := cE cx Γ pc o cx.r0 l (!isSafe r)
@@ -275,10 +276,10 @@ def cD (cx : Cx) (Γ : Gam) : (pc o : Nat) → B → List Instr
     let (c2, vr0, _) := cE cx Γ (pc + c1.length) o1 cx.r1 r false
     let (c2', vr) := getOp cx cx.r1 vr0
     let (c3, vl') := getOp cx cx.r0 vl
-    c1 ++ c2 ++ c2' ++ c3 ++ [.hcond (cmpHalt op) (vl'.arg cx) (vr.arg cx)]
+    c1 ++ c2 ++ c2' ++ c3 ++ (if vd then [.j (.st cx.dA)] else []) ++ [.hcond (cmpHalt op) (vl'.arg cx) (vr.arg cx)]
   | pc, o, .or l r =>
-    let c := cD cx Γ pc o l
-    c ++ cD cx Γ (pc + c.length) o r
+    let c := cD cx vd Γ pc o l
+    c ++ cD cx vd Γ (pc + c.length) o r
   | _, _, _ => []
 
 /-! ## statements -/
@@ -325,7 +326,7 @@ def lenS (ck : Bool) : (vd : Bool) → S → Nat
   | vd, .ifb c t e k => lenB ck c 0 2 false true + lenS ck vd t + 2 + lenS ck vd e + lenS ck vd k
   | vd, .loop c body cont k => lenB ck c 0 2 false true + lenS ck vd body + lenS ck vd cont + 2 + lenS ck vd k
   | vd, .defeat k => (if vd then 2 else 1) + lenS ck vd k
-  | vd, .defeatIf c k => lenD ck c + lenS ck vd k
+  | vd, .defeatIf c k => lenD ck vd c + lenS ck vd k
   | vd, .tryUndo body handler k => 1 + lenS ck vd body + 2 + lenS ck vd handler + lenS ck vd k
   | _, .retE e => lenGV ck e + 4
   | vd, .callS _ args k => lenCall ck args + lenS ck vd k
@@ -394,7 +395,7 @@ def cS (cx : Cx) (fa : FAddr) : (lp : Jt) → (Γ : Gam) → (pc o : Nat) → S 
   | lp, Γ, pc, o, .defeat k =>
     if lp.vd then [.j (.st cx.dA), .halt] ++ cS cx fa lp Γ (pc + 2) o k else .halt :: cS cx fa lp Γ (pc + 1) o k
   | lp, Γ, pc, o, .defeatIf c k =>
-    let d := cD cx Γ pc o c
+    let d := cD cx lp.vd Γ pc o c
     d ++ cS cx fa lp Γ (pc + d.length) o k
   | lp, Γ, pc, o, .tryUndo body handler k =>
     let hA := pc + 1 + lenS cx.checked lp.vd body + 2
@@ -938,8 +939,7 @@ def boundB (Γ : List String) : B → Bool
   | .and l r => boundB Γ l && boundB Γ r
   | .or l r => boundB Γ l && boundB Γ r
 
-/-- variables are declared before use and never shadowed; `vd` says that the list is inside the body of a
-`try/stop`, where `!truth_is_defeat` is outside the modelled sub-language (`!is_defeat()` is covered) -/
+/-- variables are declared before use and never shadowed (`vd`: the list is inside the body of a `try/stop`) -/
 def wfS : Bool → List String → S → Bool
   | _, _, .nil => true
   | _, _, .ret => true
@@ -953,7 +953,7 @@ def wfS : Bool → List String → S → Bool
   | vd, Γ, .ifb c t e k => boundB Γ c && wfS vd Γ t && wfS vd Γ e && wfS vd Γ k
   | vd, Γ, .loop c body cont k => boundB Γ c && wfS vd Γ body && wfS vd Γ cont && wfS vd Γ k
   | vd, Γ, .defeat k => wfS vd Γ k
-  | vd, Γ, .defeatIf c k => boundB Γ c && isD c && wfS vd Γ k && !vd
+  | vd, Γ, .defeatIf c k => boundB Γ c && isD c && wfS vd Γ k
   | vd, Γ, .tryUndo body handler k => wfS vd Γ body && wfS vd Γ handler && wfS vd Γ k
   | _, Γ, .retE e => boundE Γ e
   | vd, Γ, .callS _ args k => args.all (boundE Γ) && wfS vd Γ k
